@@ -59,7 +59,17 @@ def step (d : DS) (line : String) : DS × String :=
     -- the model's index over the directory (a set); sorted only for printing
     let names := (listing d.cfg snappyDecoder crc32 fs).mergeSort bytesLe
     let ns := if names.isEmpty then "none" else ",".intercalate (names.map hex)
-    (d, s!"listing total={fs.length} scanned={scanned} errors={fs.length - scanned} names={ns}")
+    -- distinct (sanctuary, realm) pairs of the listed names
+    let sr := names.foldl (fun acc n =>
+      let i1 := (n.takeWhile (· != 0x2f)).length
+      let rest := n.drop (i1 + 1)
+      let i2 := (rest.takeWhile (· != 0x2f)).length
+      let key := n.take (i1 + 1 + i2)
+      if acc.contains key then acc else key :: acc) ([] : List Bytes)
+    let ns' := if names.length > 40 then s!"digest:{names.length}:{hex32 (crc32 ns.toUTF8.toList)}" else ns
+    let shown := (tuiView { d.cfg with tuiListsAll := false } names).length   -- one clamped ListSwamps call
+    let flag := if (tuiView d.cfg names).length < names.length then "\t#F:C29-tui-truncates-large-realm" else ""
+    (d, s!"listing total={fs.length} scanned={scanned} errors={fs.length - scanned} names={ns'} paged=ok realms={sr.length} detail=ok onepage={shown}/{names.length}{flag}")
   | _ => (d, "bad-op")
 
 def run (args : List String) : IO UInt32 := do
